@@ -1,23 +1,37 @@
 (* C17 — BASIC programs compute standard arithmetic, string and control-flow semantics.
-   Only statements here; proofs live in coq/C17/*.v. Generated constants come from
-   coq/Gen/Gen_C17_basic.v (regenerated from PBasic.cpp / PBasic.h and the host files on every run). *)
-From Coq Require Import ZArith Bool List String.
-From IPV.C17 Require Import Num Tok Eval Exec Ast Tie.
+   Statements only; proofs live in coq/C17/*.v.  Generated constants (command_tokens, basic_token_enum,
+   level_table, exec_dispatch, factor_calls, host_calls) come from coq/Gen/Gen_C17_basic.v, regenerated from
+   PBasic.cpp / PBasic.h and the host files by translator/c17_gen.py on every run. *)
+From Coq Require Import ZArith Bool List String Floats.
+From IPV.C17 Require Import Num Tok Eval Exec Ast Tie PrecProof ExecProof.
 From IPV.Gen Require Import Gen_C17_basic.
 Import ListNotations.
 
-(* T-gen: every documented keyword is spelled in PBasic::command_tokens and denotes the model's keyword;
-   operator/structural keywords have exactly one spelling *)
+(* ---------------------------------------------------------------- tie to the current source (T-gen) *)
+
+(* every documented keyword is spelled in PBasic::command_tokens and denotes the model's keyword;
+   operator / structural keywords have exactly one spelling *)
 Theorem keyword_table_matches_model : keywords_ok command_tokens = true.
 Proof. vm_compute. reflexivity. Qed.
 Print Assumptions keyword_table_matches_model.
 
-(* T-gen: expr/andexpr/relexpr/sexpr/term/upexpr call the next level first, evaluate the right operand at the
-   model's rhs_level, and their while-conditions accept exactly the enumerators the model's op_at accepts
-   (the C++ conditions are evaluated for every BASIC_TOKEN value by the translator) *)
+Theorem keyword_table_denotes : forall s k, In (s, k) doc_keywords ->
+  exists en, kw_lookup command_tokens s = Some en /\ kw_eqb (kw_of_enum en) k = true.
+Proof. exact (keywords_ok_sound command_tokens keyword_table_matches_model). Qed.
+Print Assumptions keyword_table_denotes.
+
+(* expr/andexpr/relexpr/sexpr/term/upexpr call the next level first, evaluate the right operand at the model's
+   rhs_level, and their while-conditions (evaluated by the translator for every BASIC_TOKEN value) accept exactly
+   the enumerators the model's op_at accepts *)
 Theorem precedence_levels_match_source : levels_ok level_table basic_token_enum = true.
 Proof. vm_compute. reflexivity. Qed.
 Print Assumptions precedence_levels_match_source.
+
+Theorem precedence_levels_accept : forall L, L < 6 -> exists first rhs opl,
+    nth_error level_table L = Some (level_name L, first, rhs, opl) /\ first = level_name (S L) /\ rhs = level_name (rhs_level L) /\
+    forall en z, In (en, z) basic_token_enum -> (mem_s en opl = true <-> op_at L (TK (kw_of_enum en)) <> None).
+Proof. exact (levels_ok_sound level_table basic_token_enum precedence_levels_match_source). Qed.
+Print Assumptions precedence_levels_accept.
 
 Theorem statement_dispatch_matches_source : dispatch_ok exec_dispatch = true.
 Proof. vm_compute. reflexivity. Qed.
@@ -28,7 +42,118 @@ Proof. vm_compute. reflexivity. Qed.
 Print Assumptions function_cases_match_source.
 
 (* hosts_same: USER_PUNCH, USER_PRINT, RATES and CALCULATE_VALUES all go through Phreeqc::basic_compile /
-   Phreeqc::basic_run, which forward to the one interpreter object *)
+   Phreeqc::basic_run, which forward to the one interpreter *)
 Theorem hosts_share_interpreter : hosts_ok host_calls = true.
 Proof. vm_compute. reflexivity. Qed.
 Print Assumptions hosts_share_interpreter.
+
+(* ---------------------------------------------------------------- theorems about the interpreter model *)
+
+(* precedence and associativity, any nesting depth, any number structure, any keyword table, any environment:
+   the token stream printed from an expression AST with minimal parentheses evaluates (precedence climbing,
+   token level, enough fuel) to the AST's reference value and consumes exactly the printed tokens *)
+Theorem expr_tokens_eval_eq_ast :
+  forall (num : Type) (ops : numops num) (tbl : kwtable) (hp : bool) (e : env num) (a : ex) (v : val num) (rest : list tok),
+    eval_ast num ops hp e a = Ok v -> not_operator rest -> no_lp rest ->
+    exists N, forall f, N <= f -> expr num ops tbl hp f e (pr 0 a ++ rest) = Ok (v, rest).
+Proof. exact PrecProof.expr_tokens_eval_eq_ast. Qed.
+Print Assumptions expr_tokens_eval_eq_ast.
+
+(* the hypotheses are satisfiable, on binary64 with the regenerated keyword table: 1 + 2 * 3 ^ 2 / 4 - 5 < 7 AND NOT 0 *)
+Example expr_tokens_eval_eq_ast_example :
+  let a := EBin Band (EBin Blt (EBin Bsub (EBin Badd (ENum 1 0) (EBin Bdiv (EBin Bmul (ENum 2 0) (EBin Bpow (ENum 3 0) (ENum 2 0))) (ENum 4 0))) (ENum 5 0)) (ENum 7 0))
+                (ENot (ENum 0 0)) in
+  eval_ast float float_ops true (empty_env float) a = Ok (VNum 1%float) /\
+  expr float float_ops command_tokens true 200 (empty_env float) (pr 0 a) = Ok (VNum 1%float, []).
+Proof. vm_compute. split; reflexivity. Qed.
+
+(* FOR v = a TO b STEP s runs its body max 0 (floor((b-a)/s)+1) times (s>0; mirrored for s<0), for all integers on which
+   the arithmetic of the number structure is exact (hypotheses; binary64: |.| <= 2^53) *)
+Theorem for_loop_count :
+  forall (num : Type) (ops : numops num) (inj : Z -> num) (B : Z),
+    (forall a b, Z.abs a <= B -> Z.abs b <= B -> Z.abs (a + b) <= B -> n_add ops (inj a) (inj b) = inj (a + b))%Z ->
+    (forall a b, Z.abs a <= B -> Z.abs b <= B -> n_ltb ops (inj a) (inj b) = (a <? b))%Z ->
+    (forall a b, Z.abs a <= B -> Z.abs b <= B -> n_eqb ops (inj a) (inj b) = (a =? b))%Z ->
+    n_ofZ ops 0 = inj 0%Z -> (0 <= B)%Z ->
+    forall a b s f,
+      (s <> 0)%Z -> (Z.abs a <= B)%Z -> (Z.abs b <= B)%Z -> (Z.abs s <= B)%Z -> (Z.abs (b + s) <= B)%Z ->
+      Z.to_nat (trips a b s) <= f ->
+      trip_count num ops f (inj a) (inj b) (inj s) = Z.to_nat (trips a b s).
+Proof. exact ExecProof.for_loop_count. Qed.
+Print Assumptions for_loop_count.
+
+(* satisfiable: exact integers, any range *)
+Theorem for_loop_count_integers : forall a b s f, (s <> 0)%Z -> Z.to_nat (trips a b s) <= f ->
+  trip_count Z z_ops f a b s = Z.to_nat (trips a b s).
+Proof. exact for_loop_count_Z. Qed.
+Print Assumptions for_loop_count_integers.
+
+(* NEXT loops back with the FOR record kept exactly when next_continues holds, else pops it *)
+Theorem cmdnext_spec :
+  forall (num : Type) (ops : numops num) (tbl : kwtable) (hp : bool) (efuel : nat) (s : state num) name mx st hl ht rest t,
+    s_loops num s = LFor num name mx st hl ht :: rest -> iseos t = true ->
+    let v' := n_add ops (scal_num num ops (s_env num s) name) st in
+    let e' := assign num (s_env num s) (TScal name) (VNum v') in
+    cmdnext num ops tbl hp efuel s t =
+    Ok (if next_continues num ops st v' mx
+        then with_pos num (with_loops num (with_env num s e') (LFor num name mx st hl ht :: rest)) hl ht
+        else with_t num (with_loops num (with_env num s e') rest) t).
+Proof. exact ExecProof.cmdnext_spec. Qed.
+Print Assumptions cmdnext_spec.
+
+(* GOSUB pushes one record and jumps; a later RETURN (FOR/WHILE records opened in the subroutine are discarded) resumes
+   at the end of the GOSUB statement with the loop stack restored *)
+Theorem gosub_return_stack :
+  forall (num : Type) (ops : numops num) (tbl : kwtable) (hp : bool) (prog : program) (efuel : nat) (s : state num) t s1,
+    cmdgosub num ops tbl hp prog efuel s t = Ok s1 ->
+    s_loops num s1 = LGosub num (s_line num s) t :: s_loops num s /\ s_goto num s1 = true /\
+    (exists l, s_line num s1 = Some l) /\ s_env num s1 = s_env num s /\
+    forall (s2 : state num) extra t2,
+      s_loops num s2 = (extra ++ s_loops num s1)%list -> forallb (fun l => negb (is_gosub num l)) extra = true ->
+      exists s3, cmdreturn num s2 t2 = Ok s3 /\ s_loops num s3 = s_loops num s /\ s_line num s3 = s_line num s /\
+                 s_t num s3 = skiptoeos t /\ s_env num s3 = s_env num s2 /\ s_out num s3 = s_out num s2.
+Proof. exact ExecProof.gosub_return_stack. Qed.
+Print Assumptions gosub_return_stack.
+
+(* malformed programs end in a BASIC error *)
+Theorem malformed_line_is_error : forall (tbl : kwtable) lines s m,
+  In s lines -> parse_line tbl s = LineErr m -> forall p p', compile tbl lines p <> Ok p'.
+Proof. exact ExecProof.malformed_line_is_error. Qed.
+Print Assumptions malformed_line_is_error.
+
+Theorem return_without_gosub_error : forall (num : Type) (s : state num) t,
+  forallb (fun l => negb (is_gosub num l)) (s_loops num s) = true ->
+  cmdreturn num s t = Err "RETURN without GOSUB".
+Proof. exact ExecProof.return_without_gosub_error. Qed.
+Print Assumptions return_without_gosub_error.
+
+Theorem next_without_for_error : forall (num : Type) (ops : numops num) (tbl : kwtable) (hp : bool) (efuel : nat) (s : state num) t,
+  s_loops num s = [] -> iseos t = true -> cmdnext num ops tbl hp efuel s t = Err "NEXT without FOR".
+Proof. exact ExecProof.next_without_for_error. Qed.
+Print Assumptions next_without_for_error.
+
+Theorem goto_undefined_line_error :
+  forall (num : Type) (ops : numops num) (tbl : kwtable) (hp : bool) (prog : program) (efuel : nat) (s : state num) t n r,
+    intexpr num ops tbl hp efuel (s_env num s) t = Ok (n, r) -> findline prog n = None ->
+    cmdgoto num ops tbl hp prog efuel s t = Err "Undefined line".
+Proof. exact ExecProof.goto_undefined_line_error. Qed.
+Print Assumptions goto_undefined_line_error.
+
+Theorem extra_information_error :
+  forall (num : Type) (ops : numops num) (tbl : kwtable) (hp : bool) (prog : program) (efuel : nat) (s s1 : state num) first t,
+    skip_colons (s_t num s) = first :: t ->
+    dispatch num ops tbl hp prog efuel
+      (mkState num (s_env num s) (s_loops num s) (s_line num s) (first :: t) false false (s_dataline num s) (s_datatok num s) (s_out num s) (s_save num s))
+      first t = Ok s1 ->
+    s_else num s1 = false -> iseos (s_t num s1) = false ->
+    step num ops tbl hp prog efuel s = Err "Extra information on line".
+Proof. exact ExecProof.extra_information_error. Qed.
+Print Assumptions extra_information_error.
+
+(* the interpreter is total (a Coq function) and its result does not depend on the fuel once it suffices;
+   a run yields either delivered values (Ok) or an error, never both *)
+Theorem run_fuel_irrelevant :
+  forall (num : Type) (ops : numops num) (tbl : kwtable) (hp : bool) (prog : program) (efuel : nat) f (s : state num) r,
+    run num ops tbl hp prog efuel f s = r -> r <> NoFuel -> forall f', f <= f' -> run num ops tbl hp prog efuel f' s = r.
+Proof. exact ExecProof.run_fuel_irrelevant. Qed.
+Print Assumptions run_fuel_irrelevant.
